@@ -231,6 +231,32 @@ example : ∀ a ∈ [(⟨"xml", "id", [2]⟩ : Attr), ⟨"xmlns", "id", [3]⟩],
 example : (resume (.opened []) [] true .handshake).established = true := by decide +kernel
 example : (resume (.opened []) [] true .streamError).err = some true := by decide +kernel
 
+/-- **A failed further attempt never leaves the component "established"**: whatever state it was in before (in
+particular after the server closed the previous session gracefully, which leaves it established), `Resume` with any
+reply other than a handshake - and with any connect or write failure - returns an error AND announces a state, and
+that state is not "session established". -/
+theorem C16_failed_attempt_not_established (conn : Connect) (secret : List UInt8) (writeOk : Bool) (reply : Reply)
+    (h : ¬ (writeOk = true ∧ reply = .handshake ∧ ∃ a, conn = .opened a)) :
+    let r := resume conn secret writeOk reply
+    r.err.isSome = true ∧ ∃ st, r.states.getLast? = some st ∧ st ≠ .sessionEstablished := by
+  cases conn with
+  | refused => simp [resume]
+  | noStream => simp [resume]
+  | opened a =>
+    cases writeOk with
+    | false => simp [resume]
+    | true =>
+      cases reply with
+      | handshake => exact absurd ⟨rfl, rfl, a, rfl⟩ h
+      | streamError => simp [resume]
+      | other => simp [resume]
+      | decodeError => simp [resume]
+
+theorem C16_reconnect_oracle_accepts_model (reply : Reply) :
+    XmppVerif.Spec.C16.holdsReconnect reply (XmppVerif.Spec.C16.modelReconnect reply).1
+      (XmppVerif.Spec.C16.modelReconnect reply).2 = true := by
+  cases reply <;> decide
+
 end XmppVerif.Props.C16
 
 #print axioms XmppVerif.Props.C16.C16_hex_shape
@@ -248,3 +274,5 @@ end XmppVerif.Props.C16
 #print axioms XmppVerif.Props.C16.C16_one_state
 #print axioms XmppVerif.Props.C16.C16_digest_sent
 #print axioms XmppVerif.Props.C16.C16_oracle_accepts_model
+#print axioms XmppVerif.Props.C16.C16_failed_attempt_not_established
+#print axioms XmppVerif.Props.C16.C16_reconnect_oracle_accepts_model
